@@ -9,7 +9,7 @@ PID = "C02"
 LEVEL = "proof"
 COQ_TARGETS = ["Props/C02.vo", "Props/C02_identities.vo", "Props/C02_ratio.vo", "Props/C02_fp.vo", "Props/C02_model.vo"]
 PROPS_FILES = ["C02", "C02_identities", "C02_ratio", "C02_fp", "C02_model"]
-THEOREMS = ["C02_model_binv_event", "C02_model_binv_cell_pmf", "C02_model_knuth_event", "C02_model_hin_event", "C02_fingerprints", "C02_binv_recurrence", "C02_binv_sampler_event", "C02_binomial_flip", "C02_geometric_split", "C02_std_geometric_form",
+THEOREMS = ["C02_model_zeta_event", "C02_model_geo_d_event", "C02_model_geo_trivial_event", "C02_model_binv_event", "C02_model_binv_cell_pmf", "C02_model_knuth_event", "C02_model_hin_event", "C02_fingerprints", "C02_binv_recurrence", "C02_binv_sampler_event", "C02_binomial_flip", "C02_geometric_split", "C02_std_geometric_form",
             "C02_hyper_reflect_bijection", "C02_hyper_reflect_pmf", "C02_hin_recurrence", "C02_zeta_identity", "C02_zeta_accept_le_1",
             "C02_zipf_accept_mass", "C02_knuth_form", "C02_fingerprints",
             "C02_btpe_exact_ratio", "C02_btpe_accept_iff", "C02_btpe_f51_exact_ratio", "C02_h2pe_exact_ratio", "C02_h2pe_accept_iff",
@@ -24,7 +24,8 @@ TRUSTED_BASE = [
     "Props/C02_model.v (Proofs/PmfModelEvents.v): the inversion events are proved ON THE EXECUTABLE MODELS themselves (the trees run against the "
     "crate), not only for the abstract real-number loops: BINV returns Some x exactly when u0 lies in the x-th cell of the binomial cdf (None = "
     "restart only beyond 111 cells), HIN returns z exactly on the z-th cell of the hypergeometric cdf, Knuth returns k after exactly k+1 words with "
-    "the first k partial products above exp(-lambda) and the next one not",
+    "the first k partial products above exp(-lambda) and the next one not; the two counting loops of Geometric; Zeta returns x only for a proposal "
+    "floor(u^(-1/(s-1))) accepted with v <= zeta_accept (s-1) x",
     "NOT proved: that the BTPE / H2PE / PD hats dominate their targets and their Stirling squeezes (the papers' lemmas); for those parts the "
     "samplers are tied to the code pathwise only",
     "hand models coq/Model/Discrete.v of all seven samplers incl. constructors (BINV, BTPE regions 1-4 and 5.0-5.3, Knuth, Ahrens-Dieter PD, "
